@@ -7,7 +7,7 @@
    priority-sorted ANP list (C02_admin_order_irrelevant).  What is only sampled: the real map-iteration
    schedules of the Go runtime in code the mirror abstracts (dot output, exposure tables, Errors() order). *)
 From Coq Require Import List ZArith Bool String Permutation Sorting.Sorted.
-From NP Require Import IntervalSet ConnSet World Eval EvalProofs Build Connlist Diff Format SortGeneric FormatProofs OrderProofs DotProofs XFormat XFormatProofs.
+From NP Require Import IntervalSet ConnSet World Eval EvalProofs Build Connlist Diff Format SortGeneric FormatProofs OrderProofs DotProofs XFormat XFormatProofs XFormatMore XFormatMoreProofs.
 Import ListNotations.
 
 (* sorting strings is a function of the multiset, and any correct sort.Strings computes it *)
@@ -53,6 +53,20 @@ Theorem C08_exposure_txt_order_independent es es' xps mid xps' :
   list_exposure_txt es xps = list_exposure_txt es' xps'.
 Proof. exact (exposure_txt_order_independent es es' xps mid xps'). Qed.
 Print Assumptions C08_exposure_txt_order_independent.
+
+(* ... and so are its md, csv and json outputs (Model/XFormatMore.v, byte-exact against the implementation as well) *)
+Theorem C08_exposure_md_order_independent es es' xps mid xps' :
+  Permutation es es' -> Permutation xps mid -> Forall2 xp_equiv mid xps' -> list_exposure_md es xps = list_exposure_md es' xps'.
+Proof. exact (exposure_md_order_independent es es' xps mid xps'). Qed.
+Print Assumptions C08_exposure_md_order_independent.
+Theorem C08_exposure_csv_order_independent es es' xps mid xps' :
+  Permutation es es' -> Permutation xps mid -> Forall2 xp_equiv mid xps' -> list_exposure_csv es xps = list_exposure_csv es' xps'.
+Proof. exact (exposure_csv_order_independent es es' xps mid xps'). Qed.
+Print Assumptions C08_exposure_csv_order_independent.
+Theorem C08_exposure_json_order_independent es es' xps mid xps' :
+  Permutation es es' -> Permutation xps mid -> Forall2 xp_equiv mid xps' -> list_exposure_json es xps = list_exposure_json es' xps'.
+Proof. exact (exposure_json_order_independent es es' xps mid xps'). Qed.
+Print Assumptions C08_exposure_json_order_independent.
 
 (* sortConnFields uses the unstable sort.Slice on (workload, other end) only: when no two lines of a section share both -
    which the check evaluates on every implementation result - ANY correct sort by that key returns the model's order *)
